@@ -58,6 +58,14 @@ func genC05wPubVal() (string, error) {
 	s += "inductive Arg where\n  | var (x : Nat) | fresh (s : Src) | unknown\nderiving DecidableEq, Repr, Inhabited\n\n"
 	s += "inductive HStep where\n  | build (x : Nat) (s : Src) | publish (a : Arg) | inherit\nderiving DecidableEq, Repr, Inhabited\n\n"
 	s += strings.Join(defs, "")
+	hw, hf, err := c05wHealthShape(dir)
+	if err != nil {
+		return "", err
+	}
+	s += "/-- `simpleHost.Health` is the single statement `return atomic.LoadUint64(sh.healthFlags) == 0`: health is read from the\nper-address flag word on every probe. -/\n"
+	s += fmt.Sprintf("def healthIsWordRead : Bool := %v\n", hw)
+	s += "/-- fields of `hostSet` besides `once`, `mux`, `allHosts` (a cached healthy subset would be one). -/\n"
+	s += fmt.Sprintf("def hostSetExtraFields : Nat := %d\n", hf)
 	s += footer("PubVal")
 	return s, nil
 }
@@ -271,4 +279,58 @@ func c05wSteps(f *ast.File, body *ast.BlockStmt, depth int, next *int) ([]string
 		}
 	}
 	return out, err
+}
+
+// c05wHealthShape: is simpleHost.Health a direct read of the flag word, and how many fields does hostSet have besides the
+// immutable list (a derived healthy-host list would need a rebuild-then-swap protocol of its own).
+func c05wHealthShape(dir string) (bool, int, error) {
+	hf, err := parse(dir + "/host.go")
+	if err != nil {
+		return false, 0, err
+	}
+	fd := findFunc(hf, "simpleHost", "Health")
+	if fd == nil {
+		return false, 0, fmt.Errorf("simpleHost.Health not found")
+	}
+	word := false
+	if len(fd.Body.List) == 1 {
+		if r, ok := fd.Body.List[0].(*ast.ReturnStmt); ok && len(r.Results) == 1 {
+			recv := fd.Recv.List[0].Names[0].Name
+			if b, ok := r.Results[0].(*ast.BinaryExpr); ok && b.Op == token.EQL && exprKey(b.Y) == "0" &&
+				isCallExpr(b.X, "atomic.LoadUint64", 1) && exprKey(b.X.(*ast.CallExpr).Args[0]) == recv+".healthFlags" {
+				word = true
+			}
+		}
+	}
+	sf, err := parse(dir + "/host_set.go")
+	if err != nil {
+		return false, 0, err
+	}
+	extra, found := 0, false
+	ast.Inspect(sf, func(x ast.Node) bool {
+		ts, ok := x.(*ast.TypeSpec)
+		if !ok || ts.Name.Name != "hostSet" {
+			return true
+		}
+		st, ok := ts.Type.(*ast.StructType)
+		if !ok {
+			return true
+		}
+		found = true
+		for _, fl := range st.Fields.List {
+			if len(fl.Names) == 0 {
+				extra++
+			}
+			for _, nm := range fl.Names {
+				if nm.Name != "once" && nm.Name != "mux" && nm.Name != "allHosts" {
+					extra++
+				}
+			}
+		}
+		return false
+	})
+	if !found {
+		return false, 0, fmt.Errorf("type hostSet not found")
+	}
+	return word, extra, nil
 }
